@@ -162,6 +162,14 @@ func runC12(c *core.Ctx) {
 	}
 	if fn := c.Fn("C12.d", "snapshot", "(*FullSink).Close"); fn != nil {
 		sc := an.CallsTo(fn, false, "snapshot/sidecar.WriteFile")
+		if len(sc) == 0 {
+			// the sidecars are written by a helper whose result Close returns
+			if g := tailDelegate(fn); g != nil && len(an.CallsTo(g, false, "snapshot/sidecar.WriteFile")) > 0 {
+				c.Touch(g)
+				fn = g
+				sc = an.CallsTo(fn, false, "snapshot/sidecar.WriteFile")
+			}
+		}
 		succ := map[ssa.Instruction]bool{}
 		for _, r := range an.SuccessReturns(fn) {
 			succ[r] = true
